@@ -60,6 +60,7 @@ def run(rep):
     bmp_bit_manipulators(rep, fns)
     scanline_iterator_protocol(rep, fns)
     tiff_palette_size(rep, fns)
+    policy_bypass(rep, fns)
 
 
 def must_call(rep, fns):
@@ -323,7 +324,10 @@ def subrect(rep, fns):
             okb = bdef.endswith("+ _settings._top_left.x)")
             oke = edef in ("(%s + _settings._dim.x)" % bk,)
             key = "S6:%s:%s" % (sk, bk)
-            if okb and oke:
+            single = re.fullmatch(r"\(&\w+\)", bk) is not None and ek == "(%s + 1)" % bk
+            if single:
+                rep.ok("S6-subrect", key, "one pixel handed to the policy (the range is its caller's: S10, S15)")
+            elif okb and oke:
                 rep.ok("S6-subrect", key, {"begin": bdef[:120], "end": edef[:80]})
             else:
                 rep.violation("S6-subrect", key, W + "extension/io/%s/detail/read.hpp:%s" % (fmt, c.get("line")), {"begin": bdef[:200], "end": edef[:200]})
@@ -549,33 +553,35 @@ def bmp_rle_subrect(rep, fns):
             done.add("copy")
             rep.count("obligations:S10")
             prob = []
-            cps = R.calls_in(f["body"], lambda n: n == "std::copy")
-            if len(cps) != 1:
-                prob.append("%d std::copy calls" % len(cps))
+            g = R.canonize(f)       # $0 the decoded row, $1 the destination view, $2 the row number in the image
+            facts = ["%s := %s" % (dd["name"], R.key(dd["init"])) for d, _ in R.find(g["body"], lambda x: x.get("k") == "Decl") for dd in d["decls"] if dd.get("name") and dd.get("init") is not None]
+            SRC0, DSTROW = "($0.begin() + _settings._top_left.x)", "$1.row_begin(($2 - _settings._top_left.y))"
+            ifs = [x for x, _ in R.find(g["body"], lambda x: x.get("k") == "If")]
+            conds = set()
+            for anc in ifs:
+                for x, _ in R.find(anc["cond"], lambda y: y.get("k") == "Binary" and y.get("op") in ("<", "<=", ">", ">=")):
+                    conds.add((x["op"], repr(P(x["l"]) - P(x["r"]))))
+            y = A("$2")
+            want = {(">=", repr(y - A("_settings._top_left.y"))), ("<", repr(y - A("_settings._top_left.y") - A("_settings._dim.y")))}
+            if conds != want:
+                prob.append("copy condition %s, expected top_left.y <= y < top_left.y + dim.y" % sorted(conds))
+            cps = [R.key(c) for c, _ in R.calls_in(g["body"], lambda n: n == "std::copy")]
+            loops = R.loops_of(g["body"])
+            env = R.bind(facts, ["{B} := " + SRC0, "{E} := ({B} + _settings._dim.x)"])
+            if env is None:
+                prob.append("source range is not [row.begin() + top_left.x, + dim.x): %s" % facts)
+            elif cps:
+                if cps != ["copy(%s,%s,%s)" % (env["B"], env["E"], DSTROW)]:
+                    prob.append("copy %s, expected the source range into view row y - top_left.y" % cps)
             else:
-                c, p = cps[0]
-                pn = [q["name"] for q in f["params"]]
-                ren = lambda s: s.replace("this.", "")
-                gs = [(op, R.poly_of_str(l) if hasattr(R, "poly_of_str") else l, r) for op, l, r in R.guards(p)]
-                # conditions as polynomials  lhs - rhs
-                conds = set()
-                ifs = [anc for anc, fld, _ in p if anc.get("k") == "If" and fld == "then"]
-                for anc in ifs:
-                    for x, _ in R.find(anc["cond"], lambda y: y.get("k") == "Binary" and y.get("op") in ("<", "<=", ">", ">=")):
-                        conds.add((x["op"], repr(P(x["l"]) - P(x["r"]))))
-                y = A(pn[2])
-                want = {(">=", repr(y - A("_settings._top_left.y"))), ("<", repr(y - A("_settings._top_left.y") - A("_settings._dim.y")))}
-                if conds != want:
-                    prob.append("copy condition %s, expected top_left.y <= y < top_left.y + dim.y" % sorted(conds))
-                decl = {dd["name"]: dd["init"] for d, _ in R.find(f["body"], lambda x: x.get("k") == "Decl") for dd in d["decls"] if dd.get("init") is not None}
-                a0, a1, a2 = c["args"]
-                k0 = R.key(decl.get(R.key(a0), a0)).replace("this.", "")
-                k1 = R.key(decl.get(R.key(a1), a1)).replace("this.", "")
-                if k0 != "(%s.begin() + _settings._top_left.x)" % pn[0] or k1 != "(%s + _settings._dim.x)" % R.key(a0):
-                    prob.append("source range %s .. %s" % (k0, k1))
-                rb = p12_first_call(a2, "row_begin")
-                if rb is None or P(rb["args"][0]) != y - A("_settings._top_left.y"):
-                    prob.append("destination row %s, expected y - top_left.y" % (R.key(rb["args"][0]) if rb else R.key(a2)))
+                # element-wise transfer: for (; b != e; ++b, ++d) <store>(*b, d)
+                env2 = R.bind(facts, ["{D} := " + DSTROW], env)
+                stores = [R.key(c) for c, pth in R.calls_in(g["body"], lambda n: n.endswith("::store_color") or n.endswith("::read")) if any(a.get("k") == "For" for a, _, _ in pth)]
+                ok = env2 is not None and len(loops) == 1 and loops[0].get("k") == "For" and R.key(loops[0].get("cond")) == "(%s != %s)" % (env["B"], env["E"]) and \
+                    sorted(re.findall(r"\(\+\+(%\d+)\)", R.key(loops[0].get("inc")))) == sorted([env["B"], env2["D"]]) and \
+                    len(stores) == 1 and re.match(r"(this\.)?store_color\(\(\*%s\),%s," % (re.escape(env["B"]), re.escape(env2["D"])), stores[0])
+                if not ok:
+                    prob.append("row transfer not recognised: loops %s, stores %s" % ([R.key(l.get("cond")) for l in loops], stores))
             if prob:
                 rep.violation("S10-rle-subrect", "S10:bmp:copy_row_if_needed", R.fn_where(f), {"problems": prob, "problem": "a sub-rectangle read of an RLE file returns other rows/columns than the crop of the full read (and reads past the row buffer)"})
             else:
@@ -886,3 +892,43 @@ def tiff_palette_size(rep, fns):
             rep.violation("S14-palette-size", key, where, {"width": w, "expected": "max_value() + 1", "problem": "the palette view has no entry for the highest index: a pixel with that index is outside the view "
                                                            "(assertion in debug builds; the sibling reader uses max_value()+1)"})
     rep.floor("obligations:S14", 2)
+
+
+
+def policy_bypass(rep, fns):
+    """S15: in a reader instantiated with a converting policy every pixel reaches the destination view through _cc_policy.read"""
+    rep.rule("S15 bmp/pnm/targa readers instantiated with read_and_convert<CC>: no member function stores into the destination view directly (assignment through an "
+             "iterator obtained from view.row_begin/begin/x_at, or std::copy/fill/transform into one) -- every pixel goes through _cc_policy.read, so that "
+             "read_and_convert_image == color_convert of read_image (direct stores are the no-convert overload's business, selected by is_read_only)")
+    seen = {}
+    n_fn = 0
+    for f in fns:
+        cls = f.get("cls", "")
+        if "read_and_convert<" not in cls or not re.search(r"(bmp|pnm|targa)_tag", cls) or f.get("body") is None or "::reader::" not in "::" + f["name"]:
+            continue
+        n_fn += 1
+        g = R.canonize(f)
+        facts = {dd["name"]: R.key(dd["init"]) for d, _ in R.find(g["body"], lambda x: x.get("k") == "Decl") for dd in d["decls"] if dd.get("name") and dd.get("init") is not None}
+        dst = {n for n, k in facts.items() if re.match(r"\$\d+\.(row_begin|begin|x_at|at|row_end)\(", k)}
+        # parameters that are iterators handed in by a caller which took them from the view are the callee's business: the caller's store site is the call
+        fmt = re.search(r"(bmp|pnm|targa)_tag", cls).group(1)
+        for k, x, p in R.effects(g["body"]):
+            m = re.match(r"\(\(\*\(?(%\d+|\$\d+\.row_begin\([^)]*\))(?: \+\+ 0)?\)?\) = ", k) or re.match(r"\((%\d+)\[[^\]]*\] = ", k)
+            if m and (m.group(1) in dst or m.group(1).startswith("$")):
+                key = "S15:%s:reader::%s:%s" % (fmt, f["name"].split("::")[-1], re.sub(r"[%#@&]\d+", "%", k)[:80])
+                seen.setdefault(key, R.fn_where(f, x))
+        for c, p in R.calls_in(g["body"], lambda n: n in ("std::copy", "std::fill", "std::fill_n", "std::transform", "std::copy_n")):
+            k = R.key(c)
+            if re.search(r"\$\d+\.row_begin\(", k) or any(re.search(r"(?<![\w%%])%s(?!\d)" % re.escape(n), k) for n in dst):
+                key = "S15:%s:reader::%s:%s" % (fmt, f["name"].split("::")[-1], re.sub(r"[%#@&]\d+", "%", k)[:80])
+                seen.setdefault(key, R.fn_where(f, c))
+    rep.analysed["converting reader members"] = n_fn
+    rep.count("obligations:S15")
+    if n_fn < 20:
+        rep.fail_analysis("S15: only %d member functions of converting bmp/pnm/targa readers instantiated" % n_fn)
+    elif not seen:
+        rep.ok("S15-policy-bypass", "S15: %d member functions of converting readers, no direct store into the destination view" % n_fn, n_fn)
+    for key, where in sorted(seen.items()):
+        rep.count("obligations:S15")
+        rep.violation("S15-policy-bypass", key, where, {"problem": "this store does not pass through the color converter: read_and_convert_image delivers the channels copied by name "
+                                                        "(a palette BMP into gray8: the red channel instead of the luminance)"})
